@@ -58,6 +58,11 @@ struct Gram {
   int start = -1;
   bool isT(int s) const { return s < nT; }
   std::string sname(int s) const { return isT(s) ? tname[s] : nname[s - nT]; }
+  int symByName(const std::string &n) const {
+    for (int t = 0; t < nT; t++) if (tname[t] == n) return t;
+    for (int a = 0; a < nN; a++) if (nname[a] == n) return nT + a;
+    return -1;
+  }
   int termByCode(int code) const {
     for (int t = 0; t < nT; t++) if (t != errT && tcode[t] == code) return t;
     return -1;
